@@ -208,6 +208,7 @@ class MibCompiler(object):
         symbolTableMap = {}
         mibsToParse = [x for x in mibnames]
         canonicalMibNames = {}
+        fetchedMibs = set()
 
         while mibsToParse:
             mibname = mibsToParse.pop(0)
@@ -219,6 +220,12 @@ class MibCompiler(object):
             if mibname in failedMibs:
                 debug.logger & debug.flagCompiler and debug.logger('MIB %s already failed' % mibname)
                 continue
+
+            if mibname in fetchedMibs:
+                debug.logger & debug.flagCompiler and debug.logger('MIB %s already looked up' % mibname)
+                continue
+
+            fetchedMibs.add(mibname)
 
             for source in self._sources:
                 debug.logger & debug.flagCompiler and debug.logger('trying source %s' % source)
